@@ -59,8 +59,9 @@ SEEDS = [  # name, number of items, items removed one by one (public API)
 
 
 def outcome(fn, *args, **kw):
+    "fn: callable or (object, method name); the lookup is part of the guarded call"
     try:
-        return ('ret', fn(*args, **kw))
+        return ('ret', (getattr(*fn) if isinstance(fn, tuple) else fn)(*args, **kw))
     except Exception as e:  # noqa
         return ('exc', type(e).__name__)
 
@@ -126,7 +127,7 @@ class Run:
         margs = [list(before) if a is SELF else a for a in args]
         rargs = [self.s if a is SELF else a for a in args]
         mname = INPLACE[name][1] if name in INPLACE else name
-        exp = outcome(getattr(self.R, mname), *margs, **kw)
+        exp = outcome((self.R, mname), *margs, **kw)
         if exp[0] == 'exc':
             exp = None if name == 'remove' else ('raises',)
         elif name != 'pop':
@@ -148,7 +149,7 @@ class Run:
             if got[0] == 'ret':
                 got = ('ret', None) if got[1] is self.s else ('ret', 'a different object')
         else:
-            got = outcome(getattr(self.s, name), *rargs, **kw)
+            got = outcome((self.s, name), *rargs, **kw)
             if name != 'pop' and got[0] == 'ret':
                 got = ('ret', None)
         line = src_of(op)
@@ -279,7 +280,7 @@ def check_pure(run, found, light=False):
             got, src = outcome(fn, rargs[0], s), 'sorted(%r %s s)' % (args[0], name[1])
         else:
             mname = name
-            got, src = outcome(getattr(s, name), *rargs), 's.%s(%s)' % (name, ', '.join(map(repr, args)))
+            got, src = outcome((s, name), *rargs), 's.%s(%s)' % (name, ', '.join(map(repr, args)))
             if not name.startswith('is'):
                 src = 'list(%s)' % src
         if name == 'r-':
@@ -346,7 +347,7 @@ def check_readers(run, level, found):
     for i in idx:
         if i >= 0 and not cmp('index_of', 'index', 's.index(%r)' % (m[i],), lambda: s.index(m[i]), i):
             break
-    got = outcome(s.index, absent)
+    got = outcome((s, 'index'), absent)
     if got[0] != 'exc':
         found.append(('index_of', 'IndexedSet.index', {'absent item'}, 's.index(%r)' % absent, got, 'an exception'))
     for i, j, k in slice_args(n, level):
